@@ -932,6 +932,15 @@ func runC08(c *Ctx) {
 					if !isParam(fill.Args[1], 5) {
 						ok, why = false, "the first row is not filled with the given value"
 					}
+					// the first row's span is the rectangle's column range: from one x corner to the other, inclusive - in
+					// the order this path has established (the copies below repeat whatever span the first row has)
+					{
+						px1, px2 := ToPoly(paramOf(fi, 1)), ToPoly(paramOf(fi, 3))
+						lo, hi := f0, fh0.Add(polyConst(1), -1)
+						if !(lo.Equal(px1) && hi.Equal(px2) || lo.Equal(px2) && hi.Equal(px1)) {
+							ok, why = false, fmt.Sprintf("the first row spans columns %s..%s, not the rectangle's x1..x2 inclusive", lo, hi)
+						}
+					}
 					// loop starts at first row + 1
 					init := ToPoly(p.LoopIn[li.Hdr][ct.Phi].Args[0])
 					if !init.Equal(f1.Add(polyConst(1), 1)) {
